@@ -85,6 +85,12 @@ def oracle_c14(line, impl, model_kv, impl_kv=None, model=None):
             if w != got: return "assembler output '%s' differs from the bytes the documented syntax denotes '%s'" % (got[:80], w[:80])
     return None
 
+def oracle_c16(line, impl, model_kv, impl_kv=None, model=None):
+    if impl in ("asm-panic",) or impl.startswith("crash"): return "the assembler panicked on the disassembler's output"
+    if impl.startswith("ok ") and model_kv.get("canon") is not None and impl[3:] != model_kv.get("canon"):
+        return "the assembler accepted the disassembler's text but produced '%s', not the canonical form '%s'" % (impl[3:80], str(model_kv.get("canon"))[:80])
+    return None
+
 def oracle_c15(line, impl, model_kv, impl_kv=None, model=None):
     dom = model_kv.get("dom")
     if dom == "in" and (impl == "panic" or impl.startswith("crash")): return "disassembler panicked on a byte string of whole supported instructions"
@@ -116,6 +122,34 @@ def oracle_c15(line, impl, model_kv, impl_kv=None, model=None):
 EXEC_TRUST = ["host addresses of the buffers are taken from the run itself (echoed by the harness, incl. the interpreter's stack through the rbpf_verif hook)",
               "helpers registered by the harness are pure functions of their arguments"]
 
+def engine_oracle(engines, check_align=False):
+    """the generated code must agree with the interpreter on every in-claim case; compile outcomes must be the modelled ones;
+    compilation never panics and is repeatable"""
+    def f(line, impl, mkv, ikv=None, model=None):
+        ikv = ikv or {}
+        if impl == "panic" or impl.startswith("crash"): return "harness/interpreter panicked or crashed"
+        fi = dict(x.split("=", 1) for x in impl.split()[1:] if "=" in x)
+        for e in engines:
+            val = ikv.get(e)
+            if val is None: continue
+            v0 = val.split(":code=")[0]
+            sem = mkv.get(e + "sem")
+            if v0.startswith("compile-panic"): return e + ": compilation panicked"
+            if v0.startswith("nonrepeatable"): return e + ": compiling twice gave different results (" + v0 + ")"
+            if v0 == "compile-err" or sem == "compile-err":
+                if v0 != sem and not (v0 == "compile-err" and sem in ("compile-err",)): return "%s: compile outcome '%s' where the model says '%s'" % (e, v0, sem)
+                continue
+            if v0 == "compiled" or mkv.get("claim") != "in": continue
+            want = "ok:r0=%s:mem=%s:mbuff=%s:LOG=%s" % (fi.get("r0"), fi.get("mem"), fi.get("mbuff"), fi.get("log"))
+            got, _, al = v0.partition(":align=")
+            if check_align and al not in ("", "ff", "8"): return "%s: helper entered with rsp %% 16 = %s (the C ABI requires 8 at entry, i.e. 16-byte alignment at the call)" % (e, al)
+            if got != want:
+                mkv["engine_as_modelled"] = "1" if got == sem else "0"
+                mkv["engine"] = e
+                return "%s gives '%s' where the interpreter gives '%s'" % (e, got[:90], want[:90])
+        return None
+    return f
+
 def oracle_no_panic(line, impl, model_kv, impl_kv=None, model=None):
     if impl == "panic" or impl.startswith("crash"): return "the interpreter panicked / crashed on a program the verifier accepted"
     return None
@@ -130,6 +164,51 @@ PROPS = {
              "(thorough: 140,000 and 999,999) instructions with maximal forward/backward jumps and wide loads across the 2^15/2^16 boundaries. Each case is compared with the interpreter model AND with the ISA "
              "specification (spec=). Non-trivial: distinct program that ran to a value or an error.",
         trusted=EXEC_TRUST,
+    ),
+    "C03": dict(
+        suites=["exec-engines"], oracle=engine_oracle(["jit"]), level="proof", model_is_spec=True,
+        nontrivial=lambda line, impl: impl.startswith("ok"),
+        rule="suite exec-engines on the x86-64 JIT (generated code runs in forked children): a third of the C01 operation matrix (every opcode x register pairs x boundary operands, upper halves set before 32-bit "
+             "operations and byte swaps), the memory-instruction matrix, call graphs, 12,000 random engine-safe programs on the four VM kinds with helpers, context probes, helper-contract programs, "
+             "div/mod at instruction indexes 65534..131071. A case is compared only when the taint run of the model says it is inside the claim (no undefined register/stack byte, r1-r5 after a helper, "
+             "or raw address reaches the result, a branch, a divisor or stored packet bytes) - the filtered fraction is in input_distribution. Oracle: same r0, packet and metadata bytes, helper log as the real "
+             "interpreter. Non-trivial: distinct program the interpreter ran to a value.",
+        trusted=EXEC_TRUST + ["x86-64 semantics of the ~30 instruction forms the JIT emits, validated by execution on the host CPU (the theorems are about the register-transfer model EngineSem)"],
+    ),
+    "C04": dict(
+        suites=["exec-engines"], oracle=engine_oracle(["clif"]), level="proof", model_is_spec=True,
+        nontrivial=lambda line, impl: impl.startswith("ok"),
+        rule="suite exec-engines on Cranelift (feature `cranelift`, generated code runs in forked children): same cases as C03, incl. CFG shapes (dead code after exit/ja, back edges, back edge to instruction 0, blocks "
+             "reached only by fall-through, jumps over wide loads), mod by zero and le16/32 with upper halves set, helper ids equal to local-call displacements. Local calls must be refused at compile time. "
+             "Compared only inside the claim (taint run). Non-trivial: distinct program the interpreter ran to a value.",
+        trusted=EXEC_TRUST + ["Cranelift 0.127 IR semantics and its code generator (the theorems are about the IR-level model EngineSem)"],
+    ),
+    "C08": dict(
+        suites=["exec-engines#helpers,engrandom,context", "exec-random"], oracle=engine_oracle(["jit", "clif"], check_align=True), level="proof", model_is_spec=True,
+        nontrivial=lambda line, impl: "log=0:" not in impl and impl.split()[0] in ("ok",) or impl.startswith("err:unknown-helper"),
+        rule="suites exec-engines (helper-contract programs: ids 0, 1, 2^31-1, 2^31, 2^32-1 registered or not, call sites at local-call depth 0..3, arguments set per depth, r6..r9 folded after the call, "
+             "ldabs after the call; random programs with several helper calls) + exec-random on the interpreter. The instrumented helpers log (function, a1..a5) and their entry rsp; compared: the log "
+             "(count, order, arguments), r0, r6..r9 (folded), rsp alignment at helper entry, compile-time refusal of unregistered ids by both compilers, run-time error by the interpreter. "
+             "Non-trivial: distinct program that called a helper (or hit the unknown-helper error).",
+        trusted=EXEC_TRUST + ["the helper-entry stack pointer is observed by an assembly trampoline in the harness"],
+    ),
+    "C09": dict(
+        suites=["exec-engines#context,engrandom"], oracle=engine_oracle(["jit", "clif"]), level="proof", model_is_spec=True,
+        nontrivial=lambda line, impl: impl.startswith("ok"),
+        rule="suite exec-engines#context: 4 VM kinds x 3 engines x packet lengths {0,1,8,64,1500} x (data_offset,data_end_offset) in {(0,8),(8,0),(0x40,0x50),(0x50,0x40),(0,4096),(65528,0),(16,24)} "
+             "x metadata present/absent; probes: r1 null-ness, stack writable at r10-8 and r10-512, first byte through r1, first/last packet byte through ldabs and ldind, fixed-metadata slots "
+             "(end - start = len, first and last byte through the slots); plus random programs per kind. The fixed-metadata buffer's real address is learnt by a probe program. "
+             "Non-trivial: distinct configuration x probe that ran to a value.",
+        trusted=EXEC_TRUST,
+    ),
+    "C12": dict(
+        suites=["exec-accepted-engines", "exec-engines#farjump,calls,helpers"], oracle=engine_oracle(["jit", "clif"]), level="proof", model_is_spec=True,
+        nontrivial=lambda line, impl: impl.split()[0] not in ("rejected", "bad-op"),
+        rule="suites exec-accepted-engines + exec-engines: every byte string of the C06 verify suite that the REAL verifier accepts (every opcode/register byte in every position, every displacement around the "
+             "bounds and wide loads, every last-instruction kind incl. final ja, dead code, back edges, exit with any offset field, soups, mutants) is compiled TWICE by the x86-64 JIT and by Cranelift under "
+             "catch_unwind; compared: Ok/Err equality with the compile model, JIT machine code byte-identical across the two compilations (hook), emitted size = sized buffer (the hook slices at the second "
+             "pass' offset inside the buffer the first pass sized; emit asserts guard the end). Long programs: div/mod at indexes up to 131071. Non-trivial: distinct accepted program (it was compiled).",
+        trusted=EXEC_TRUST + ["Cranelift-internal failures (define_function) are covered by the runs only"],
     ),
     "C05": dict(
         suites=["exec-accepted", "exec-random", "exec-calls"], oracle=oracle_no_panic, level="proof", model_is_spec=True,
@@ -166,6 +245,24 @@ PROPS = {
              "instructions x registers. Outcome, returned value and digests of packet / metadata / allowed-memory bytes are compared with the proved model run on the same host "
              "addresses; any difference is a violation (the model's verdict is OwnMemory by C02_checkMem_iff/C02_refused/C02_admitted). Non-trivial: distinct probe that reached the access.",
         trusted=EXEC_TRUST,
+    ),
+    "C13": dict(
+        suites=["asm"], oracle=oracle_c14, level="proof", model_is_spec=True,
+        nontrivial=lambda line, impl: impl.startswith("ok ") or (impl == "err" and "want=err" in line),
+        rule="suite asm: AST-directed texts - every documented mnemonic (92) x registers 0..17 x boundary offsets in/around [-32768,32767] x immediates in/around [-2^31,2^31-1] (64-bit boundary values for lddw) "
+             "x register/immediate form x spellings (decimal, hex lower/upper case, leading zeros, explicit '+', '-') x whitespace variants (spaces, tabs, newlines, none after commas); every ordered pair of "
+             "mnemonics (source order, 'exit' followed by 'rsh'); programs of 1..8 instructions; wrong operand shapes and unknown mnemonics. Oracle: the bytes computed by the generator's own encoder from the AST "
+             "(want=ok:<hex>) or want=err for out-of-range operands; plus equality with the proved model. Non-trivial: distinct text with an expected result.",
+        trusted=["Unicode classes are model parameters; the driver's instantiation is proved sane (saneClasses_drive)"],
+    ),
+    "C16": dict(
+        suites=["rt"], oracle=oracle_c16, level="proof", model_is_spec=True,
+        nontrivial=lambda line, impl: impl.startswith("ok "),
+        rule="suite rt: bytes -> real disassembler -> lines joined by newlines -> real assembler. Single instructions: every supported opcode (and tail call) x boundary offsets x immediates of both signs x register "
+             "pairs incl. 15/15; programs of 1..10 instructions over all opcodes in any order, two thirds canonical (unused fields zero, non-negative immediates, any 64-bit value for lddw), one third arbitrary. "
+             "Oracles: (a) a Canonical program (decided by the Lean driver) must come back byte for byte (spec=); (b) whenever the assembler accepts, the result must equal canon(p) computed by the driver. "
+             "Non-trivial: distinct program whose text the assembler accepted.",
+        trusted=[],
     ),
     "C14": dict(
         suites=["asmfuzz", "asm"], oracle=oracle_c14, level="proof",
@@ -222,6 +319,8 @@ def match_known(known, pid, line, impl, model_kv, mod=None):
         ok = True
         if "case_regex" in m and not re.search(m["case_regex"], line): ok = False
         if "tag" in m and m["tag"] not in model_kv.get("tags", "").split(","): ok = False
+        for kk, vv in m.get("kv", {}).items():
+            if model_kv.get(kk) != vv: ok = False
         if "impl_regex" in m and not re.search(m["impl_regex"], impl): ok = False
         if m.get("model_agrees") and mod is not None and impl != mod: ok = False      # the model reproduces the finding exactly; anything else is new
         if ok and m: return k
@@ -255,7 +354,12 @@ def run_property(core, pid, tier, seed, replay):
     else:
         lines = []
         for s in cfg["suites"]:
-            lines += [l + cfg.get("case_suffix", "") for l in core.gen_cases(s, tier, seed, cfg.get("corpus", [pid]))]
+            name, _, flt = s.partition("#")
+            got = core.gen_cases(name, tier, seed, cfg.get("corpus", [pid]))
+            if flt:
+                keep = tuple(" tag=%s " % t for t in flt.split(","))
+                got = [l for l in got if any(k in l for k in keep)]
+            lines += [l + cfg.get("case_suffix", "") for l in got]
     res = core.run_both(lines) if lines else {"impl": ("", "", 0), "model": ("", "", 0)}
     impl_lines = res["impl"][0].split("\n")[:-1]
     model_lines = res["model"][0].split("\n")[:-1]
